@@ -18,6 +18,10 @@ CLAIMED = {
   text="Machine-checked proof over all integers: bintime->datetime/hightime floor with error in [0, 1 unit), datetime->bintime floor (< 1 tick) and exact when representable, hightime->bintime nearest tick (<= 1/2 tick) and exact when representable, hightime->datetime floor, datetime->hightime->datetime and bintime->hightime->bintime identities, monotonicity of all four bintime conversions (incl. round-half-even), same-type identity, tz rules of the dispatch, TimeDelta(int) exact, TimeDelta(float|Decimal) nearest tick / exact / OverflowError iff out of range; built on integer pieces regenerated from _timedelta.py. Correspondence over all nine pairs (direct and through Timing.to_*), tz kinds, range edges, history-built sources; total_seconds (2 ulp) and precision_total_seconds round trip by exact-rational oracle in Coq (partial).",
   design="DESIGN.md §7 C04", tech="Coq proof (lia/nia with Euclidean division) over regenerated pieces + hand model of the Decimal/float entry point; in-Coq correspondence",
   note=TB + "translator; Model/Convert.v models Decimal (prec 64) and float entry points as exact rationals; datetime/hightime arithmetic outside /repo assumed exact."),
+ "C06": dict(
+  text="Machine-checked proof for every mask, value, width and both bit orders: the regenerated while-loop of _mask_to_column_indices (translated to a fuelled Fixpoint; fuel proved sufficient) yields exactly the ascending list of set mask bits mapped to data columns; the unpacked row holds in column c the c-th highest (big) / c-th lowest (little) set bit, hence signal i = column n-1-i holds the i-th lowest / highest; one row per sample; masks with bits beyond the port width and negative masks raise ValueError. Correspondence over list / native / non-native byte order / strided / C- and F-ordered 2-D inputs, three state dtypes, windows, argument-intact and re-conversion probes.",
+  design="DESIGN.md §7 C06", tech="Coq proof (induction on loop fuel, bit lemmas) over translator-regenerated mask logic + in-Coq correspondence",
+  note=TB + "translator incl. loop translation; byteswap/view/unpackbits modelled at value level and compared per run."),
  "C08": dict(
   text="Machine-checked proof over all integers/lists: the regular generator (written as the code: first element then repeated +=) yields exactly n timestamps and the k-th equals timestamp+offset+(i+k)*interval (no drift); irregular windows are firstn/skipn or ValueError, never fewer; NoTimestampInformationError / ValueError cases; the direction state machine accepts exactly the non-decreasing or non-increasing sequences. Correspondence on all three families incl. range-limit OverflowError paths, exhaustive short windows and sequences, hostile mutation of the caller's list.",
   design="DESIGN.md §7 C08", tech="Coq proof (induction) over a hand model + in-Coq correspondence",
